@@ -50,6 +50,193 @@ CHECKS = {
         design_ref="DESIGN.md section 6 C15, section 10.6",
         note=TB + "The type-annotation consumer (const_ty) is checked with the spec as oracle but not modelled; JIT evaluation and two indexing crashes lie outside the model and are reported as findings. Axioms: none.",
         technique="Coq proof (worklist invariant with fuel bound, inductive IsConst) + exhaustive front-end correspondence + end-to-end reflected lengths"),
+    "C01": dict(
+        category="translation_validation",
+        text=("Independent oracle = definitional interpreter eval_prog of coq/Common/CapyCore.v (integers of all 12 types with wrap-around, "
+              "truncating division, masked shifts, casts; bool; locals; assignment to places; if/else; while/loop; labelled break/continue; "
+              "blocks with values; calls/recursion; return; bounds-checked arrays; structs; print events; exit status = main's result mod 256; "
+              "fault = message + exit 1). Coq proves its meta-theory: determinism, fuel monotonicity, preservation and type safety "
+              "(C01_type_safety_partial: a program accepted by well_typed never gets stuck, for every fuel). Every run: 64 boundary programs "
+              "+ 240 (quick) / 1500 (thorough) generated well-typed programs are re-checked by the extracted well_typed, evaluated by the "
+              "extracted interpreter, compiled by the real capy and run; stdout and exit status must agree; failing programs are shrunk on the AST."),
+        design_ref="DESIGN.md section 6 C01, section 10.12",
+        note=TB + "The semantics itself is the specification (written from the README and observation). Not yet in CapyCore: char, slices, enums/switch, optionals, error unions, pointers, lambdas, varargs, defer, floats. Division by zero / MIN/-1 are machine traps (skipped). No simulation proof source->Cranelift IR exists or is claimed; lowering-decision theorems live in C02/C03/C08/C10/C11. Axioms: none.",
+        technique="Translation validation against a Coq-defined semantics + Coq proofs of the semantics' meta-theory (type safety by a step functional)"),
+    "C02": dict(
+        category="proof",
+        text=("Coq theorems, for ALL layout numbers satisfying the layout invariants: the byte footprint of every modelled store-emitting "
+              "operation (write_all, cast_into_memory arms, tagged-union payload casts, nil values, memset loops swept to 4096 and lifted by "
+              "forallb, ABI cast words) lies inside its destination outside exactly characterised classes; the full statement is refuted "
+              "(stride-sized aggregate copies into packed fields and sum types) and stays refuted after the committed tag-width fix, which "
+              "is proved to repair the variant->enum tag store. Guard-byte programs on the real capy: changed guards must equal the model's "
+              "prediction (correspondence) and, outside known classes, none may change (oracle)."),
+        design_ref="DESIGN.md section 6 C02, section 10.13",
+        note=TB + "Layout numbers are parameters constrained by invariants (not derived from Common/Layout.v); field-wise literal stores are exercised end to end only; stack-slot adjacency is Cranelift's and not modelled. Axioms: none.",
+        technique="Coq proof (footprint arithmetic with refuted/except-known classes) + end-to-end guard-byte correspondence"),
+    "C04": dict(
+        category="proof",
+        text=("Coq theorems about the model of comptime result capture and re-materialisation (comptime.rs, functions.rs Expr::Comptime) and the "
+              "checker's ComptimePointer guard: scalar round trip for every integer width and any register garbage, f32-via-f64 exact at bit "
+              "level for non-NaN, data and type-id round trips for pointer-free types, side effects happen once; guard completeness and the "
+              "accepted-result round trip are refuted (str, aggregates with pointers/slices, ?^T, i128, nested enum results) and proved "
+              "outside those narrow classes. End to end: generated comptime blocks print the comptime copy next to a run-time copy."),
+        design_ref="DESIGN.md section 6 C04, section 10.12",
+        note=TB + "What the JIT-compiled body computes is not modelled (run time). Axioms: float facet uses Flocq's classical axioms if any (see evidence); others none.",
+        technique="Coq proof (encode/decode round trips, refuted/except-known) + end-to-end comptime-vs-runtime programs"),
+    "C16": dict(
+        category="proof",
+        text=("PARTIAL. Proved in Coq on the reference semantics (CapyCore eval under a comptime environment): evaluating generic code equals "
+              "evaluating the substituted code (C16_subst_equiv), a generic call behaves like a call to the appended hand-substituted copy up "
+              "to the fault's function index, equal comptime arguments give equal behaviour, instantiation-table non-interference. The real "
+              "instantiation machinery is only tested: generated programs with generic functions (1-3 comptime parameters: integer types, "
+              "integers; nested generic calls) instantiated 1-4 times vs the same AST with substituted copies (python subst = extracted Coq "
+              "subst_fun on every case); real generic = real copy = eval_prog."),
+        design_ref="DESIGN.md section 6 C16, section 10.12",
+        note=TB + "Type arguments are integer types <= 64 bits only; no struct/distinct type arguments, inline header references, varargs or other-file generics; the table model is not tied to hir_ty by a harness. Axioms: none.",
+        technique="Coq proof (substitution lemma by induction on fuel over a step functional) + end-to-end differential generic/substituted programs"),
+    "C19": dict(
+        category="proof",
+        text=("Coq theorems for ALL structs of scalars and nested fixed arrays (any number of fields): the code's eightbyte merge and "
+              "classify_arg equal the System V AMD64 classification written independently (MEMORY exactly when SysV says so, else the same "
+              "class array; no panic site, no fuel exhaustion); field layout equals C's; split_aggregate's cast words sit at 0 and 8, carry the "
+              "eightbyte's class and over-cover by an exactly stated amount (exact coverage refuted, witness {[3]u8}). The whole-signature "
+              "rule (6 INTEGER / 8 SSE registers, whole-argument spill, sret) is NOT proved: the executable checker abi_ok is evaluated on the "
+              "real fn_ty_to_abi (cfg hook) for ~10k signatures per run; both call directions are run against gcc -O0/-O2."),
+        design_ref="DESIGN.md section 6 C19, section 10.13",
+        note=TB + "Cranelift's sequential register assignment and gcc are trusted and exercised end to end; x86-64 System V only. Axioms: none.",
+        technique="Coq proof (classification agreement by induction over fields) + verified checker on the real ABI lowering + end-to-end against gcc"),
+    "C03": dict(
+        category="proof",
+        text=("Coq model of label lowering (hir body.rs) + the defer-stack code generator (functions.rs) + execution, against a big-step "
+              "semantics in which leaving a block by any path runs the defers reached so far, newest first, once. After the committed fix "
+              "(c8af5e1) the full theorem holds for ALL accepted programs (C03_fixed_full, structural induction + induction on loop "
+              "iterations); for the pre-fix code generator the full statement is refuted by three witnesses and proved outside the three "
+              "syntactic classes (kept as history). Label resolution proved correct for all programs; no modelled panic site reachable. "
+              "Tied to /repo per run by ~15k (quick) / 229k (thorough) real capy executions vs extracted model vs extracted spec and a "
+              "label-error acceptance stream."),
+        design_ref="DESIGN.md section 6 C03, section 10.7",
+        note=TB + "Deferred expressions are atomic; ScopeIds are nesting levels; Cranelift/linker/libc are end to end only. Axioms: none.",
+        technique="Coq proof (simulation of the defer-stack compiler against big-step semantics) + end-to-end differential correspondence + extracted spec as oracle"),
+    "C10": dict(
+        category="proof",
+        text=("Coq theorems on a lowering-trace model of a[i] and #unwrap: an out-of-range index yields only descriptor loads, the message and "
+              "exit 1 (no element access, before the assigned value is evaluated); an in-range index accesses exactly one element at "
+              "base+i*stride, at any nesting depth (induction); wrong-variant #unwrap aborts; literal out-of-range rejected iff idx>=size. "
+              "Full statement refuted by witnesses (u128 index truncated, zero-sized elements, 8-bit tag overflow) and proved outside those "
+              "classes. End-to-end programs with run-time indices 0..len+4, boundary values, unwraps of every sum kind, literal indices."),
+        design_ref="DESIGN.md section 6 C10, section 10.7",
+        note=TB + "a[i] += v, indexing of globals and inside comptime are not modelled; a reordering of load/store before the check is only visible to the trace theorem, not end to end. Axioms: none.",
+        technique="Coq proof on a lowering-trace model + end-to-end correspondence + extracted value-level spec"),
+    "C11": dict(
+        category="proof",
+        text=("Coq theorems: automatically assigned discriminants are pairwise distinct for every enum (two-pass invariant, no bound); the switch "
+              "checker accepts iff arms are variants, duplicate-free and (exhaustive or default); dispatch runs exactly the arm of the value's "
+              "variant with the payload bound, else the default. Refuted with witnesses and proved outside them: discriminants above 255 "
+              "(tag overflow), switches on distinct/variant-wrapped sums (unreachable!), three codegen asserts. Front-end stream (4k switches: "
+              "diagnostic kind or panic vs model) and end-to-end stream (~640 compiled switches over all variants)."),
+        design_ref="DESIGN.md section 6 C11, section 10.7",
+        note=TB + "MultipleDefaultArms / RegularArmAfterDefault are compared against a Python spec, arm body types are not modelled, types are abstracted to atoms. Axioms: none.",
+        technique="Coq proof (invariant over the two-pass discriminant assignment, checker iff, dispatch table) + differential correspondence + end-to-end"),
+    "C26": dict(
+        category="proof",
+        text=("Coq refinement proof, for ALL histories of the type checker's usage protocol (no bound on items or rounds): the complete model of "
+              "topo::TopoSort (insertion-ordered maps, shift_remove, num_children underflow as Crash) represents an abstract scheduler "
+              "(pending/done/waits); peek_all offers exactly the ready items in order, CycleErr iff something is pending and nothing ready, "
+              "then every pending item waits on a pending item; completed items are never offered again; the worklist empties when all "
+              "complete; no underflow under the protocol (reachable outside it, witness). Stream A drives the real TopoSort<u32> on 44k "
+              "exhaustive + 20k random protocol histories + 20k malformed sequences; stream B checks the protocol and the offers on traces "
+              "of the real InferenceCtx::finish (cfg hook) over the examples, core and generated multi-file programs."),
+        design_ref="DESIGN.md section 6 C26, section 10.8",
+        note=TB + "That hir_ty follows the protocol is validated on recorded traces every run, not proved about globals.rs; indexmap semantics and dev-profile overflow checks are assumed. Axioms: none.",
+        technique="Coq proof (representation invariant, induction over histories) + exhaustive/random API correspondence + protocol validation on real traces"),
+    "C20": dict(
+        category="proof",
+        text=("PARTIAL. Proved in Coq: confluence of the finish loop over the C26 TopoSort model for an abstract inference step given as "
+              "section hypotheses (acyclic deps via a rank, result a function of the deps' results, completes only when deps are finished, "
+              "asks only for unfinished real deps): results are equal for every permutation of the seed, the finished set is exactly the "
+              "reachable set, no panic site reachable, fuel monotone; hypotheses satisfiable. Not proved: termination, that the real infer "
+              "satisfies the hypotheses, cyclic programs, indexing/imports/codegen. Those are covered by a metamorphic end-to-end stream: "
+              "generated accepted programs with 3-12 interdependent globals, permuted and split into <=3 files, built and run with the "
+              "real capy; acceptance, stdout and exit status must be invariant."),
+        design_ref="DESIGN.md section 6 C20, section 10.8",
+        note=TB + "The section hypotheses on `infer` are part of the trusted base of this property (only the TopoSort protocol of the real infer is validated, by C26 stream B). Axioms: none.",
+        technique="Coq proof of scheduler confluence under stated hypotheses (partial) + metamorphic end-to-end testing"),
+    "C08": dict(
+        category="proof",
+        text=("Coq theorems with the operand VALUE universally quantified (Z): the modelled instruction selection of compile_num_binary / unary "
+              "ops / cast_num / get_final_ty / Ty::max, interpreted over Common/Bits.v, meets the two's-complement specification for all 14 "
+              "integer-like types and 18 operators (128-bit / and % excepted: refuted, does not compile), the full 14x14 integer cast matrix "
+              "outside one refuted class (signed source to wider unsigned target zero-extends), comptime re-materialisation of integers, and "
+              "int<->float casts outside two refuted classes (Flocq). Real capy runs 200-triple programs at run time AND in comptime; the "
+              "extracted model predicts and the extracted spec judges every printed bit pattern."),
+        design_ref="DESIGN.md section 6 C08, section 10.9",
+        note=TB + "Cranelift instruction semantics are trusted as written in Bits.v/Floats.v and validated by the stream (x86_64 only); float arithmetic/comparisons have correspondence only; weak operand types are outside the theorems. Axioms: integer theorems none; float-cast theorems depend on Flocq's classical real-number axioms (Classical_Prop.classic, ClassicalDedekindReals.sig_forall_dec, sig_not_dec, FunctionalExtensionality.functional_extensionality_dep).",
+        technique="Coq proof (bit-vector arithmetic on Z with lia/Z.div_mod_to_equations, Flocq for floats) + end-to-end differential correspondence + extracted spec as oracle"),
+    "C09": dict(
+        category="proof",
+        text=("Coq theorems about the model of literal lowering (decimal with _ and e, hex, bin, char/string escapes), acceptance "
+              "(get_max_int_size, expect_match shortcut) and defaulting (finalize_int): checked left-to-right parsing returns the positional "
+              "value iff it fits u64 (induction), escapes denote their characters, a literal is accepted iff it fits its type and keeps its "
+              "value, outside refuted classes (i128 rejects 2^63, isize has no limit, unannotated literals above i32::MAX are compiled as "
+              "i32, 0e20 rejected). Front-end harness for acceptance/escapes (11k spellings), real capy for printed values."),
+        design_ref="DESIGN.md section 6 C09, section 10.9",
+        note=TB + "Float literals and global literals are checked against an exact-rational / observed-rule oracle only (no Coq model); f32 double rounding found there. Axioms: none.",
+        technique="Coq proof (induction over digit lists) + front-end correspondence + end-to-end printed values"),
+    "C24": dict(
+        category="proof",
+        text=("Coq theorem for ALL correctly parenthesised expression trees (strong induction on tree size, fuel 6(n+1)): the fuelled "
+              "transcription of the Pratt parser of grammar/expr.rs (binding powers, prefix/postfix handling, call-argument loop, "
+              "quick-assign look-ahead, lambda detection scan) parses the printed tokens back to the tree with no errors; minimal and "
+              "redundant printers correct; coded binding powers equal the documented table; left associativity, level order, prefix/postfix "
+              "tighter with the exact code-derived prefix-vs-postfix relation. Real lexer+parser+ast accessors vs model vs tree on all trees "
+              "to depth 3 (reduced operator set), all operator pairs, sampled depth 5, token mutants."),
+        design_ref="DESIGN.md section 6 C23/C24, section 10.10",
+        note=TB + "Token-kind level; constructs outside the expression fragment return Unsupported in the model. Axioms: none.",
+        technique="Coq proof (print/parse round trip by strong induction) + differential correspondence through the ast crate"),
+    "C23": dict(
+        category="proof",
+        text=("PARTIAL. Proved in Coq: any trace of the parser-core API (start/complete/precede/bump) with every marker completed yields a "
+              "well-bracketed event list with one AddToken per bump; Sink::finish is lossless whenever it returns and cannot return with "
+              "surplus AddTokens; every recorded error position lies within the input; previous_token_range out-of-bounds condition "
+              "characterised; linear fuel for printed expressions only (parse_terminates_partial). NOT proved: the full grammar's totality, "
+              "termination and panic-freedom - decided per input on the real parser by an oracle (no panic, CPU watchdog, linear budget, "
+              "tree text == input, error ranges in range) over exhaustive <=4-token sequences, soups, fixtures/examples/core mutations, "
+              "nesting to 200; the real event lists are replayed through the extracted Sink model."),
+        design_ref="DESIGN.md section 6 C23/C24, section 10.10",
+        note=TB + "Four genuine parser defects are known findings (double bump over trivia panics; three never-terminating recovery loops, surfaced as VERIF-NO-PROGRESS panics by a cfg hook). Axioms: none.",
+        technique="Coq proof of the event/sink layer (partial) + verified checkers on the real parser's output + watchdog oracle"),
+    "C07": dict(
+        category="proof",
+        text=("PARTIAL. Proved in Coq: the gate of main.rs as a decision table (object iff no errors, nothing unsafe, one main, codegen ok; "
+              "assert fires iff no errors and something unsafe under tracking), the unsafe-tracking traversal over an abstract HIR flags "
+              "every location containing an attributed error (tree induction, no bound) and flags nothing unmarked; the extracted checker "
+              "gate_ok decides the observable statement. NOT proved: no diagnostic implies nothing unsafe / codegen succeeds (a whole-checker "
+              "invariant) - tested per input: gate_ok runs on (errors, unsafe, codegen outcome) of the real pipeline for near-valid programs "
+              "(one type/mutability/const/scope-breaking mutation), gate model vs real capy build, error-free programs linked and run."),
+        design_ref="DESIGN.md section 6 C07, section 10.11",
+        note=TB + "The HIR traversal model is tied to the code only through the oracle (no HIR dump compared). Axioms: none.",
+        technique="Coq proof (decision table, tree/fuel induction) + verified checker on the real pipeline + differential gate model"),
+    "C06": dict(
+        category="proof",
+        text=("PARTIAL (a property of the running program). Proved in Coq: the exact no-crash condition of diagnostics rendering (non-empty "
+              "range inside the text on char boundaries, not ending on a newline; CR-free texts) and crash witnesses outside it, plus "
+              "re-exported totality theorems of the line index and the lexer. The rendering model equals the real Diagnostic::display on "
+              "24k cases including which panic site fires. Everything else is exploration: child-process fuzzing of the real capy build "
+              "(random UTF-8, corpus mutations, mutated well-typed programs; panic site, verifier text, CPU-time hang criterion), crashes "
+              "de-duplicated by panic site; ~30 reproduced sites are known findings, any other site is a violation."),
+        design_ref="DESIGN.md section 6 C06, section 10.11",
+        note=TB + "Rust stack overflow, Cranelift verifier, allocator exhaustion and wall-clock time cannot be exhibited by a Gallina model; panic classes are file:line with a +-12 line tolerance; the hang criterion is CPU time scaled by a reference compile. Axioms: none.",
+        technique="Coq proof for modelled components (partial) + model/implementation correspondence for rendering + fuzzing oracle with per-site classes"),
+    "C21": dict(
+        category="proof",
+        text=("PARTIAL (mostly run-time). Proved in Coq: outputs of sorted iteration, commutative folds and the unsafe-tracking loop are invariant "
+              "under permutation of unordered-container iteration; first-use type-id numbering is prefix-stable and injective; main-file "
+              "choice invariant when unique; diagnostic PRINT ORDER across files is refuted as order-dependent (FxHashMap iteration), so "
+              "that facet is tested only. Run-time stream: generated valid and invalid programs built 3 times in fresh processes (different "
+              "directories, stale out/, padded environments), object bytes and diagnostics compared; library-level file-load order."),
+        design_ref="DESIGN.md section 6 C21, section 10.11",
+        note=TB + "ASLR, pointer hashing (internment) and time cannot be exhibited by deterministic Gallina functions. Axioms: none.",
+        technique="Coq proof of order-invariance lemmas (partial) + repeated-build differential testing"),
     "C12": dict(
         category="proof",
         text=("Coq theorems over ALL types of the Ty syntax (no pool, no bound) about the arm-for-arm model of Ty::can_fit_into / "
@@ -89,7 +276,7 @@ CHECKS = {
               "tables, offsets, type equality and any are checked end to end by generated programs run with the real capy against the C17 "
               "specification and address arithmetic."),
         design_ref="DESIGN.md section 6 C18, section 10.5",
-        note=TB + "Not proved (partial): the table/counter invariant of to_type_id, ty_info.rs emission and the any/type casts are covered by correspondence / end-to-end only (64-bit host). Axioms: none.",
+        note=TB + "Not proved: that the emitted layout/info arrays are in counter order (ty_info.rs emission) and the any/type casts - covered by correspondence / end-to-end only (64-bit host). Axioms: none.",
         technique="Coq proof (finite bit-field sweep lifted by forallb, case analysis) + differential correspondence + end-to-end reflection programs"),
     "C22": dict(
         category="proof",
@@ -175,7 +362,7 @@ def main():
         f.write("\n")
 
 
-HOOK_COMMITS = ["1c1e07d", "c523f62", "efaef7a", "9e918b4", "c8b1eb9"]
+HOOK_COMMITS = ["1c1e07d", "c523f62", "efaef7a", "9e918b4", "c8b1eb9", "a81023b"]
 
 if __name__ == "__main__":
     main()
